@@ -292,6 +292,31 @@ func c09Run(w *W) {
 		}
 		c09Sentence(w, append([]sym{}, ss...))
 	})
+	// base sentences that already hold a trailing comment and more text after its newline: the lists of leaf
+	// commands of ≤ 5 symbols with "#c <newline>" inserted at every position (what follows the comment's newline
+	// shows whether a layout change makes that newline disappear)
+	seenC := map[string]bool{}
+	derivations(false, func(name string, texts []string) {
+		if name != "D0" || len(texts) > 5 {
+			return
+		}
+		for i := 1; i <= len(texts); i++ {
+			t := append(append(append([]string{}, texts[:i]...), "#c", "\n"), texts[i:]...)
+			t = append(t, "\n")
+			key := strings.Join(t, "\x00")
+			if seenC[key] || !w.Mine() || w.TimeUp() {
+				seenC[key] = true
+				continue
+			}
+			seenC[key] = true
+			ss := syms(t...)
+			if m := gramParse(ss); !m.ok && m.dontcare == "" && m.consumed == 0 {
+				continue
+			}
+			w.Count("comment_bases", 1)
+			c09Sentence(w, ss)
+		}
+	})
 	seen := map[string]bool{}
 	derivations(w.thorough(), func(name string, texts []string) {
 		if !w.thorough() && (name == "D2" || name == "D3") {
